@@ -18,7 +18,11 @@ ASSUMPTIONS = [
 RULE = ("for each door {UDP stream decoder, ICMP stream decoder, IPv4/IPv6 header skipping, ICMP message parsing, SOCKS5 relayed datagram and server replies, ClientHello "
         "extraction and peeking, HTTP/1.1 codec, forwarded origin response (plus response heads and chunk-size lines that never end), credentials file, rules}: the valid cases of the owning property, each mutated by bit flips, "
         "truncation at every field boundary class, length fields set to 0 / 1 / max, byte insertion and duplication, all-0x00 / all-0xff runs, and re-segmentation "
-        "(1-byte pieces, 2 pieces); plus every string of length <= 3 over {0x00, 0x01, 0x16, 0x45, 0x60, 0xff} for the packet parsers; non-trivial = mutated; distinct = distinct input")
+        "(1-byte pieces, 2 pieces); plus every string of length <= 3 over {0x00, 0x01, 0x16, 0x45, 0x60, 0xff} for the packet parsers; plus a list of malformed origin answers "
+        "that is the same on every run (kind origin:c17_run: bytes behind a body complete by Content-Length / a bodiless status or method / the last chunk, length fields and chunk "
+        "sizes that are negative, no numbers, 2^64-1 or beyond 64 bits, broken chunk framing, broken status lines, bare LF, NUL bytes; each whole, cut behind the head, cut in front "
+        "of the excess and byte by byte, for HTTP/1.1 and HTTP/2 (HTTP/3 too in the thorough tier) GET and HEAD, an origin that closes or keeps its connection open, a client sink "
+        "that takes everything or a byte at a time), judged for a panic and for the watchdog; non-trivial = mutated; distinct = distinct input")
 
 # engine -> indexes of tokens that are opaque byte payloads for the harness (None = every token)
 OPAQUE = {
@@ -58,6 +62,73 @@ def mutate(rng, b):
 def parse_line(l):
     parts = l.split()
     return parts[0], [untok(t) for t in parts[1:]]
+
+
+def origin_cases(thorough):
+    """Malformed and over-long origin answers to a forwarded request, the same on every run whatever the seed: bytes behind a body that
+    is complete by its own framing (Content-Length, a bodiless status or method, the last chunk), length fields that are no lengths,
+    broken chunk framing, broken status lines; each whole, cut at the end of the head, cut in front of the excess, and byte by byte,
+    to a client sink that takes everything and to one that takes a byte at a time. Judged for a panic and for the watchdog only."""
+    c17 = importlib.import_module("props.c17")
+    ok = b"HTTP/1.1 200 OK\r\n"
+    streams = []     # (what, head, body, excess)
+    for what, head, body, excess in (
+            ("bytes behind a Content-Length body", ok + b"Content-Length: 3\r\n\r\n", b"abc", b"x"),
+            ("a second response behind a Content-Length body", ok + b"Content-Length: 3\r\n\r\n", b"abc", ok + b"Content-Length: 0\r\n\r\n"),
+            ("bytes behind an empty Content-Length body", ok + b"Content-Length: 0\r\n\r\n", b"", b"TRAILER"),
+            ("a body behind 204", b"HTTP/1.1 204 No Content\r\n\r\n", b"", b"body"),
+            ("a body behind 304 that states a length", b"HTTP/1.1 304 Not Modified\r\nContent-Length: 4\r\n\r\n", b"", b"body"),
+            ("bytes behind an interim response only", b"HTTP/1.1 100 Continue\r\n\r\n", b"", b"\x00\xff"),
+            ("bytes behind interim and final response", b"HTTP/1.1 103 Early Hints\r\nLink: </x>\r\n\r\n" + ok + b"Content-Length: 1\r\n\r\n", b"a", b"bc"),
+            ("bytes behind the last chunk", ok + b"Transfer-Encoding: chunked\r\n\r\n", b"3\r\nabc\r\n0\r\n\r\n", b"GARBAGE"),
+            ("a trailer section that never ends its last line", ok + b"Transfer-Encoding: chunked\r\n\r\n", b"1\r\na\r\n0\r\nX-T: 1\r\n", b"X-U"),
+            ("a chunk size that is no number", ok + b"Transfer-Encoding: chunked\r\n\r\n", b"zz\r\nabc\r\n", b"0\r\n\r\n"),
+            ("a negative chunk size", ok + b"Transfer-Encoding: chunked\r\n\r\n", b"-1\r\nabc\r\n", b"0\r\n\r\n"),
+            ("a chunk size beyond 64 bits", ok + b"Transfer-Encoding: chunked\r\n\r\n", b"FFFFFFFFFFFFFFFFF\r\nabc", b"\r\n0\r\n\r\n"),
+            ("a chunk size of 2^64-1", ok + b"Transfer-Encoding: chunked\r\n\r\n", b"FFFFFFFFFFFFFFFF\r\nabc", b"\r\n0\r\n\r\n"),
+            ("chunk data without its CRLF", ok + b"Transfer-Encoding: chunked\r\n\r\n", b"3\r\nabcXY", b"0\r\n\r\n"),
+            ("an empty chunk-size line", ok + b"Transfer-Encoding: chunked\r\n\r\n", b"\r\n", b"\r\n\r\n"),
+            ("a negative Content-Length", ok + b"Content-Length: -1\r\n\r\n", b"", b"abc"),
+            ("a Content-Length beyond 64 bits", ok + b"Content-Length: 99999999999999999999\r\n\r\n", b"abc", b""),
+            ("a Content-Length of 2^64-1", ok + b"Content-Length: 18446744073709551615\r\n\r\n", b"abc", b"def"),
+            ("a Content-Length that is no number", ok + b"Content-Length: abc\r\n\r\n", b"abc", b""),
+            ("two Content-Length fields that differ", ok + b"Content-Length: 1\r\nContent-Length: 3\r\n\r\n", b"abc", b"d"),
+            ("Content-Length and chunked together", ok + b"Content-Length: 1\r\nTransfer-Encoding: chunked\r\n\r\n", b"3\r\nabc\r\n0\r\n\r\n", b"x"),
+            ("a status beyond three digits", b"HTTP/1.1 99999 X\r\n\r\n", b"", b"abc"),
+            ("a status of 000", b"HTTP/1.1 000 X\r\nContent-Length: 0\r\n\r\n", b"", b"abc"),
+            ("an unknown protocol version", b"HTTP/9.9 200 OK\r\n\r\n", b"", b"abc"),
+            ("bare LF line ends", b"HTTP/1.1 200 OK\nContent-Length: 3\n\n", b"abc", b"x"),
+            ("NUL bytes in the head", b"HTTP/1.1 200 OK\r\nX-\x00: \x00\r\n\r\n", b"", b"\x00"),
+            ("a head of line ends only", b"\r\n\r\n", b"", b"\r\n\r\n"),
+            ("bytes that are no HTTP at all", b"\x16\x03\x01\x00\x05hello", b"", b"\xff" * 9),
+            ("no bytes at all", b"", b"", b""),
+    ):
+        streams.append((what, head, body, excess))
+    out = []
+    for what, head, body, excess in streams:
+        n = len(head) + len(body) + len(excess)
+        shapes = [("whole", [n])]
+        if len(head) and n > len(head):
+            shapes.append(("head|rest", [len(head), n - len(head)]))
+        if len(excess) and n > len(excess):
+            shapes.append(("body|excess", [n - len(excess), len(excess)]))
+        if len(head) and len(body) and len(excess):
+            shapes.append(("head|body|excess", [len(head), len(body), len(excess)]))
+        if n > 1:
+            shapes.append(("bytes", [1] * n))
+        for version in ([1, 2, 3] if thorough else [1, 2]):
+            for method in (b"GET", b"HEAD"):
+                for shape, sizes in shapes:
+                    for closes in (1, 0):
+                        for acc in ([], [1] * 400):
+                            if not thorough and (closes == 0 or acc) and shape not in ("body|excess", "head|body|excess"):
+                                continue
+                            toks = [[version, closes], list(method), list(b"http://origin.test/p"), c17.flat([("accept", "*/*")]), [],
+                                    list(head + body + excess), [x for x in sizes if x > 0], acc]
+                            out.append(Case(line("c17_run", toks), None, kind="origin:c17_run", nontrivial=True,
+                                            meta={"engine": "c17_run", "what": what, "version": version, "method": method.decode(), "shape": shape,
+                                                  "origin_closes": closes, "client_takes": "a byte at a time" if acc else "everything"}))
+    return out
 
 
 def gen_cases(rng, ctx):
@@ -102,12 +173,16 @@ def gen_cases(rng, ctx):
             if eng in ("c06_decode", "c11_decode_requests") and rng.chance(1, 3):
                 whole = sum(toks, [])
                 toks = [[x] for x in whole[:600]] if rng.chance(1, 2) else [whole[:len(whole) // 2], whole[len(whole) // 2:]]
+                if not toks:
+                    toks = [[]]   # every chunk was emptied by the mutation: one empty read, not a line without any token
             if eng == "c17_run" and len(toks[5]) > 3000:
                 continue
             l = line(eng, toks)
             cases.append(Case(l, l if (eng in MODEL_TOTAL) else None, kind="mutated:" + eng, nontrivial=True, meta={"engine": eng}))
     # origins that never finish a response head / a chunk-size line (what the forwarded stream holds must stay within a bound)
     cases += importlib.import_module("props.c17").bound_cases(rng, thorough)
+    # origins whose answer is malformed or goes on behind its own end: the same list on every run (the mutations above reach them by chance only)
+    cases += origin_cases(thorough)
     # exhaustive short strings over a reduced alphabet for the packet parsers
     alpha = [0x00, 0x01, 0x16, 0x45, 0x60, 0xff]
     shorts = [[]] + [[a] for a in alpha] + [[a, b] for a in alpha for b in alpha] + [[a, b, c] for a in alpha for b in alpha for c in alpha]
@@ -119,16 +194,27 @@ def gen_cases(rng, ctx):
     return cases
 
 
+def head(out):
+    """First token of a runner's answer; an answer may be empty (a chunk decoder fed no chunk at all answers nothing)."""
+    parts = out.split()
+    return parts[0] if parts else ""
+
+
 def judge(case, impl, model, spec, ctx):
     eng = case.meta["engine"]
     if impl == "999":
         return [("violation", "%s: the endpoint code panicked on this input" % eng)]
-    if impl.split()[0] == "995":
-        return [("violation", "%s: no result within the watchdog time: the code loops without consuming input" % eng)]
+    what = eng
+    if case.kind == "origin:c17_run":
+        m = case.meta
+        what = "c17_run: HTTP/%d %s forwarded to an origin that answers with %s (pieces: %s; origin %s; client sink takes %s)" % (
+            m["version"], m["method"], m["what"], m["shape"], "closes" if m["origin_closes"] else "keeps its connection open", m["client_takes"])
+    if head(impl) == "995":
+        return [("violation", "%s: no result within the watchdog time: the code loops without consuming input" % what)]
     if case.kind == "bound:c17_run":
         return importlib.import_module("props.c17").judge_bound(case, impl)
-    if model is not None and model.split()[0] not in ("9",) and impl != model:
-        if eng == "c12_extract" and model.split()[0] == "9":
+    if model is not None and head(model) not in ("9",) and impl != model:
+        if eng == "c12_extract" and head(model) == "9":
             return []
         return [("disagree", "%s: implementation %s, model %s" % (eng, impl[:100], model[:100]))]
     return []
